@@ -145,11 +145,18 @@ int vp_case(Choice& c, Report& rep) {
   rep.nontrivial(!low_budget);
   rep.fingerprint(mix(mix(Fs, ch), mix(dur, (uint64_t)bitrate / 500))); rep.fingerprint(mix(fam[0], (uint64_t)complexity * 16 + (uint64_t)(force_mode & 15)));
 
+  // Finding F18 (fixed in /repo by dd442894; regression case corpus/C05/fixed/F18-hybrid-vbr-bitrate-max.case):
+  // in hybrid mode with VBR the CELT layer was given bitrate - SILK share; when that was <= 500 b/s the CELT
+  // ctl rejected it, the layer kept OPUS_BITRATE_MAX and every packet filled the buffer (510 kb/s for a
+  // 1.7 kb/s target).  After the fix such windows sit at the SILK floor (about 16 kb/s) and are calibrated as
+  // part of class lp-low; the label keeps the class visible.
+  const bool f18_class = !low_budget && n_mode[1] > 0 && (dur == 2 || dur == 3) && (double)bitrate * (fec ? 1 : 2) / 12.0 - 300.0 * ch <= 800.0;
+  if (f18_class) rep.label("hybrid-celt-share-below-500");
   if (g_calib_out) {
     FILE* f = fopen(g_calib_out, "a");
     if (f) {
-      fprintf(f, "{\"class\":\"%s\",\"excess_bps\":%.1f,\"ratio\":%.5f,\"vs_ref\":%.5f,\"Fs\":%d,\"ch\":%d,\"dur\":%g,\"bitrate\":%d,\"cx\":%d,\"fmode\":%d,\"app\":%d,\"sig\":\"%s\",\"amp\":%g,\"silk\":%d,\"hybrid\":%d,\"celt\":%d,\"fec\":%d,\"dtx\":%d,\"bw\":%d}\n",
-              cls, rate - bitrate, ratio, vs_ref, Fs, ch, cu::DUR400[dur] * 2.5, bitrate, complexity, force_mode, app, sig::FAMILY_NAME[fam[0]], amp[0], n_mode[0], n_mode[1], n_mode[2], fec, dtx, bandwidth);
+      fprintf(f, "{\"class\":\"%s\",\"f18class\":%d,\"excess_bps\":%.1f,\"ratio\":%.5f,\"vs_ref\":%.5f,\"Fs\":%d,\"ch\":%d,\"dur\":%g,\"bitrate\":%d,\"cx\":%d,\"fmode\":%d,\"app\":%d,\"sig\":\"%s\",\"amp\":%g,\"silk\":%d,\"hybrid\":%d,\"celt\":%d,\"fec\":%d,\"dtx\":%d,\"bw\":%d}\n",
+              cls, (int)f18_class, rate - bitrate, ratio, vs_ref, Fs, ch, cu::DUR400[dur] * 2.5, bitrate, complexity, force_mode, app, sig::FAMILY_NAME[fam[0]], amp[0], n_mode[0], n_mode[1], n_mode[2], fec, dtx, bandwidth);
       fclose(f);
     }
     return 0;
